@@ -383,6 +383,7 @@ def job_orders_and_objects(ctx, lo, hi):
     same answer.  (3) DCM(x=, y=, z=) does not depend on the order in which the keywords are written."""
     _set_tier(ctx)
     from ahrs import Quaternion, DCM
+    from ahrs.common.dcm import rot_seq, rotation
     cases = _axang_cases()[lo:hi]
     for ia, n, ang in cases:
         if not (1e-6 <= ang <= PI - 1e-6):
@@ -416,7 +417,7 @@ def job_orders_and_objects(ctx, lo, hi):
         # history on one object: conversions asked, the object CHANGED in place (element assignment, normalize() of a non-unit object),
         # conversions asked again -> they describe the new value (= what a fresh object holding the new numbers answers)
         other = rq.qmul(q, rq.axang2q([0.3, -0.5, 0.8], 0.9))
-        for how in ('q[:] = other', 'q *= -1 (element-wise, same rotation)', 'normalize() of a versor=False object'):
+        for how in ('q[:] = other', 'q *= -1 (element-wise, same rotation)', 'normalize() of a versor=False object', 'q.A = other (the public attribute re-bound to a new array)'):
             try:
                 if how.startswith('normalize'):
                     Hh = Quaternion(2.5 * q, versor=False)
@@ -424,6 +425,12 @@ def job_orders_and_objects(ctx, lo, hi):
                         fn(Hh)
                     Hh.normalize()
                     newv = np.array(Hh, float)
+                elif how.startswith('q.A ='):
+                    Hh = Quaternion(q.copy())
+                    for nm, fn in readers:
+                        fn(Hh)
+                    Hh.A = rq.qunit(other).copy()
+                    newv = rq.qunit(other).copy()
                 elif how.startswith('q[:]'):
                     Hh = Quaternion(q.copy())
                     for nm, fn in readers:
@@ -476,6 +483,20 @@ def job_orders_and_objects(ctx, lo, hi):
                     for c in sorted(names):
                         ref = ref @ ELEM[c](val[c])
                     ctx.close(np.asarray(DCM(**kd)), ref, 1e-12, 'DCM(keywords in any order, degrees=True) = Rx Ry Rz of the given angles', key)
+        # the same NUMBER given as radians, as degrees, and as radians again (same axis, same process): each call answers for its own unit
+        for a in (1.0, 0.5, 0.25, 30.0, -2.0):
+            for axn in 'xyz':
+                key = f'axis={axn} number={a}'
+                for step, deg in enumerate((False, True, False, True)):
+                    ang_r = math.radians(a) if deg else a
+                    ctx.close(np.asarray(rotation(axn, a, degrees=deg)), ELEM[axn](ang_r), 1e-12, 'rotation(ax, a) and rotation(ax, a, degrees=True) called alternately with the same number', f'{key} call#{step} degrees={deg}')
+                    kw = {axn: a, 'degrees': deg}
+                    ctx.close(np.asarray(DCM(**kw)), ELEM[axn](ang_r), 1e-12, 'DCM(x|y|z=a) and DCM(..., degrees=True) called alternately with the same number', f'{key} call#{step} degrees={deg}')
+            for deg in (True, False, True):
+                angs3 = [a, 0.5 * a, 0.25 * a]
+                conv = [math.radians(v_) if deg else v_ for v_ in angs3]
+                ctx.close(np.asarray(rot_seq('zyx', list(angs3), degrees=deg)), rq.Rz(conv[0]) @ rq.Ry(conv[1]) @ rq.Rx(conv[2]), 1e-12, "rot_seq('zyx', angles) called alternately in degrees and radians with the same numbers", f'numbers={angs3} degrees={deg}')
+                ctx.close(np.asarray(DCM(euler=('zyx', list(angs3)))), rq.Rz(angs3[0]) @ rq.Ry(angs3[1]) @ rq.Rx(angs3[2]), 1e-12, "DCM(euler=) in radians after rot_seq in degrees with the same numbers", f'numbers={angs3} after degrees={deg}')
         ctx.cls('keyword-order')
 
 
